@@ -23,7 +23,7 @@ func init() {
 		}
 		checkC20(r, prog, g)
 	})
-	register("C15", false, func(r *Run, prog *Program) {
+	register("C15", true, func(r *Run, prog *Program) {
 		g := loadGrammars(r, prog)
 		if g == nil {
 			return
@@ -53,7 +53,7 @@ func init() {
 		r.Explain = "Decides the structural clauses of C15: the table is the grammar (C20's comparison), the table is a well-formed PEG whose recursive-descent interpretation is defined and terminates, both entry alternatives are anchored at end of input and the entry point / invalid-UTF-8 / recover options are never set by module code, every node type of the table is dispatched by parseExpr, every single-value type assertion in an action is satisfied by the inferred dynamic types of the label it reads on error-free runs, and no keyword literal can be directly followed by an identifier character. NOT decided: that pigeon's combinator engine interprets the table as PEG, and accept/reject on concrete strings against an independent recogniser."
 		r.Assume = append(r.Assume, "pigeon's generated engine (parseSeqExpr, parseChoiceExpr, matchers) implements ordered-choice PEG semantics", "Engine P's model of pigeon's notation")
 	})
-	register("C16", false, func(r *Run, prog *Program) {
+	register("C16", true, func(r *Run, prog *Program) {
 		g := loadGrammars(r, prog)
 		if g == nil {
 			return
@@ -719,7 +719,7 @@ func (ga *GA) reachesParen(n *peg.Node, seen map[string]bool) bool {
 }
 
 func checkDoubleNegation(r *Run, ga *GA) {
-	info := ga.prog.Grammar.TypesInfo
+	prog := ga.prog
 	var not *opSite
 	for _, s := range ga.opSites() {
 		if s.op == "UnaryOpNot" {
@@ -731,84 +731,84 @@ func checkDoubleNegation(r *Run, ga *GA) {
 		r.Fail("unresolved-anchor", "c16.double-negation", "not-action", "grammar/grammar.go", "no action builds UnaryOpNot")
 		return
 	}
-	operandLabel := not.fields["Operand"]
-	ok := false
-	detail := "the action that builds `not` has no branch returning the inner operand when its operand is itself a `not` node"
-	ast.Inspect(not.fd.Body, func(x ast.Node) bool {
-		is, okk := x.(*ast.IfStmt)
-		if !okk || is.Init == nil {
-			return true
+	if prog.SSA == nil {
+		r.Fail("undecided", "c16.double-negation", "not-action", "grammar/grammar.go", "SSA not loaded")
+		return
+	}
+	fn := prog.Method(prog.GrammarSSA, "current", not.fd.Name.Name, true)
+	nt := prog.grammarType(not.typ)
+	if fn == nil || nt == nil {
+		r.Fail("unresolved-anchor", "c16.double-negation", "not-action", prog.pos(not.fd.Pos()), "SSA of the action not found")
+		return
+	}
+	// the parameter bound to the operand label
+	var pOperand *Sym
+	for _, p := range fn.Params {
+		if p.Name() == not.fields["Operand"] {
+			pOperand = paramSym(p)
 		}
-		as, okk := is.Init.(*ast.AssignStmt)
-		if !okk || len(as.Lhs) != 2 || len(as.Rhs) != 1 {
-			return true
+	}
+	if pOperand == nil {
+		r.Fail("unresolved-anchor", "c16.double-negation", "not-action", prog.pos(not.fd.Pos()), "operand parameter not found")
+		return
+	}
+	ptrT := types.NewPointer(nt)
+	c, _ := prog.Grammar.Types.Scope().Lookup("UnaryOpNot").(*types.Const)
+	// case 1: the operand is itself a `not` node: the action must return that node's operand
+	ps := NewPathSim(prog)
+	ps.Seed = func(st *pstate) {
+		st.dyn[pOperand.Key()] = ptrT
+		if c != nil {
+			st.eqc[opSym(pOperand, ptrT, "Operator").Key()] = constKey(c)
 		}
-		ta, okk := ast.Unparen(as.Rhs[0]).(*ast.TypeAssertExpr)
-		if !okk {
-			return true
+	}
+	okFold, n := true, 0
+	want := (&Sym{K: sMkIface, A: opSym(pOperand, ptrT, "Operand")}).Key()
+	want2 := opSym(pOperand, ptrT, "Operand").Key()
+	for _, sm := range ps.Run(fn) {
+		if sm.Ret == nil || len(sm.Results) != 2 {
+			okFold = false
+			continue
 		}
-		src, okk := ast.Unparen(ta.X).(*ast.Ident)
-		if !okk || src.Name != operandLabel {
-			return true
+		n++
+		k := sm.Results[0].Key()
+		if !(k == want || k == want2) || !sm.Results[1].IsNil() {
+			okFold = false
 		}
-		pt, okk := info.Types[ta.Type].Type.(*types.Pointer)
-		if !okk {
-			return true
+	}
+	r.Check("c16.double-negation", "not-action-folds", prog.pos(not.fd.Pos()), okFold && n > 0, "when the operand of `not` is itself a `not` node the action must return that node's operand (`not not e` is `e`)")
+	// case 2: any other operand: a new `not` node around it
+	for _, other := range ga.implementers(prog.grammarType("Expression").Underlying().(*types.Interface)) {
+		if other == "*"+not.typ {
+			continue
 		}
-		nn, okk := pt.Elem().(*types.Named)
-		if !okk || nn.Obj().Name() != not.typ {
-			return true
+		ot := prog.grammarType(strings.TrimPrefix(other, "*"))
+		if ot == nil {
+			continue
 		}
-		vObj := info.Defs[as.Lhs[0].(*ast.Ident)]
-		okObj := info.Defs[as.Lhs[1].(*ast.Ident)]
-		// cond: ok && v.Operator == UnaryOpNot
-		hasOK, hasCmp := false, false
-		var conj func(e ast.Expr)
-		conj = func(e ast.Expr) {
-			e = ast.Unparen(e)
-			if b, okk := e.(*ast.BinaryExpr); okk && b.Op == token.LAND {
-				conj(b.X)
-				conj(b.Y)
-				return
+		var dyn types.Type = ot
+		if strings.HasPrefix(other, "*") {
+			dyn = types.NewPointer(ot)
+		}
+		ps2 := NewPathSim(prog)
+		ps2.Seed = func(st *pstate) { st.dyn[pOperand.Key()] = dyn }
+		okWrap, m := true, 0
+		for _, sm := range ps2.Run(fn) {
+			if sm.Ret == nil || len(sm.Results) != 2 {
+				okWrap = false
+				continue
 			}
-			if id, okk := e.(*ast.Ident); okk && info.Uses[id] == okObj {
-				hasOK = true
+			m++
+			res := sm.Results[0]
+			if res.K == sMkIface {
+				res = res.A
 			}
-			if b, okk := e.(*ast.BinaryExpr); okk && b.Op == token.EQL {
-				x, y := ast.Unparen(b.X), ast.Unparen(b.Y)
-				if _, isSel := y.(*ast.SelectorExpr); isSel {
-					x, y = y, x
-				}
-				if sel, okk := x.(*ast.SelectorExpr); okk && sel.Sel.Name == "Operator" {
-					if id, okk := sel.X.(*ast.Ident); okk && info.Uses[id] == vObj {
-						if cid, okk := y.(*ast.Ident); okk {
-							if c, okk := info.Uses[cid].(*types.Const); okk && c.Name() == "UnaryOpNot" {
-								hasCmp = true
-							}
-						}
-					}
-				}
+			if res.K != sFresh || !sm.Results[1].IsNil() {
+				okWrap = false
 			}
 		}
-		conj(is.Cond)
-		if !hasOK || !hasCmp {
-			return true
-		}
-		// body: return v.Operand, nil
-		for _, st := range is.Body.List {
-			if rs, okk := st.(*ast.ReturnStmt); okk && len(rs.Results) == 2 {
-				if sel, okk := ast.Unparen(rs.Results[0]).(*ast.SelectorExpr); okk && sel.Sel.Name == "Operand" {
-					if id, okk := sel.X.(*ast.Ident); okk && info.Uses[id] == vObj {
-						if nid, okk := ast.Unparen(rs.Results[1]).(*ast.Ident); okk && nid.Name == "nil" {
-							ok = true
-						}
-					}
-				}
-			}
-		}
-		return true
-	})
-	r.Check("c16.double-negation", "not-action-folds", ga.prog.pos(not.fd.Pos()), ok, detail)
+		r.Check("c16.double-negation", "wraps:"+other, prog.pos(not.fd.Pos()), okWrap && m > 0, "an operand of type "+other+" must be wrapped in a new `not` node")
+	}
 }
 
 // resolveLocal follows single-assignment local identifiers.
